@@ -218,6 +218,9 @@ pub fn run(ctx: &mut Ctx) {
                 if !ctx.take("exh", idx) {
                     continue;
                 }
+                if ctx.stop("exh") {
+                    break;
+                }
                 let buf: Vec<u8> = digits(k, 10, l).into_iter().map(|d| SIGMA[d]).collect();
                 for off in 0..l {
                     check_name(ctx, "exh", idx, &buf, off);
@@ -248,10 +251,13 @@ pub fn run(ctx: &mut Ctx) {
     }
 
     // full messages with arbitrary legal compression, parsed through Packet::parse
-    let n = if ctx.slow_tool { 320 } else { tier.pick(20_000u64, 1_000_000u64) };
+    let n = if ctx.slow_tool { 320 } else { tier.pick(200_000u64, 10_000_000u64) };
     for idx in 0..n {
         if !ctx.take("msg", idx) {
             continue;
+        }
+        if ctx.stop("msg") {
+            break;
         }
         let mut r = ctx.rng("msg", idx);
         let mut g = Gen::new(&mut r, Cfg { share: 85, max_entries: 5, max_rest: 8, edns: 0, long_names: idx % 4 == 0, ..Default::default() });
